@@ -76,7 +76,7 @@ func TestSim(t *testing.T) {
 			}
 			shrink(t, p, &v, budget)
 			writeJSON(*fOut, &v)
-			return
+			os.Exit(0)
 		}
 		fmt.Printf("replaying %s: property=%s seed=%d class=%s key=%s choices=%d\n", *fFile, v.Property, v.Seed, v.Class, v.Key, v.NChoices)
 		o, fault, tries := replayMatching(t, p, &v, 200)
@@ -90,7 +90,7 @@ func TestSim(t *testing.T) {
 			os.Exit(0)
 		}
 		fmt.Printf("violation class=%s key=%s event_log_hash=%d\n%s\n", o.Class, o.Key, o.EventHash, o.Detail)
-		if o.Class == v.Class && o.Key == v.Key && (o.EventHash == v.EventHash || v.EventHash == 0) {
+		if (v.Class == "race" && o.Class == "race") || (o.Class == v.Class && o.Key == v.Key && (o.EventHash == v.EventHash || v.EventHash == 0)) {
 			fmt.Println("REPRODUCED")
 		} else {
 			fmt.Println("DIFFERENT violation than recorded")
@@ -110,6 +110,7 @@ func TestSim(t *testing.T) {
 			dl = time.Unix(*fDeadline, 0)
 		}
 		worker(t, p, *fTier, baseSeed(), *fFrom, *fTo, *fOut, dl, *fEvHash)
+		os.Exit(0)
 	case "run":
 		n := *fWorkers
 		if n == 0 {
